@@ -2,7 +2,7 @@
 //! rejected ones) to the checker, and independent invariant checkers that recompute each
 //! invariant from the stored entries only.
 use crate::dump::{self, status_of, DiffOpts, Dump, Status};
-use crate::inv::E;
+pub use crate::inv::E;
 use crate::ops::Node;
 use kanidmd_lib::prelude::*;
 use serde_json::Value as J;
@@ -228,6 +228,26 @@ pub fn ref_attrs_of(schema: &StoredSchema) -> BTreeSet<String> {
         .collect()
 }
 
+/// Reference-bearing attributes of the schema in force on `node`: every attribute whose syntax is
+/// ReferenceUuid / OauthScopeMap / OauthClaimMap. At the current domain level the schema lives in
+/// memory only (no attributetype entries are stored), so the attribute table of the loaded schema is
+/// read (not the refint plugin's own `get_reference_types` cache); attributetype ENTRIES, where a
+/// server stores them (older domain levels), are merged in.
+pub async fn ref_attrs_of_node(node: &Node, entries: &[E]) -> BTreeSet<String> {
+    use kanidmd_lib::schema::SchemaTransaction;
+    use kanidmd_lib::value::SyntaxType;
+    let r = node.qs.read().await.expect("read");
+    let mut out: BTreeSet<String> = r
+        .get_schema()
+        .get_attributes()
+        .values()
+        .filter(|a| matches!(a.syntax, SyntaxType::ReferenceUuid | SyntaxType::OauthScopeMap | SyntaxType::OauthClaimMap))
+        .map(|a| a.name.to_string())
+        .collect();
+    out.extend(ref_attrs_of(&stored_schema(entries)));
+    out
+}
+
 pub struct RefScan {
     /// (holder, attribute, target, target status or None when absent)
     pub dangling: Vec<(Uuid, String, Uuid, Option<Status>)>,
@@ -261,12 +281,17 @@ pub fn ref_scan_with(entries: &[E], ref_attrs: BTreeSet<String>) -> RefScan {
     }
 }
 
-/// Live entries of `entries` holding a reference (any reference attribute) to `target`.
+/// Live entries of `entries` holding a reference (any reference attribute except the derived
+/// memberof/directmemberof) to `target`.
 pub fn holders_of(entries: &[E], target: Uuid, ref_attrs: &BTreeSet<String>) -> BTreeSet<Uuid> {
     entries
         .iter()
         .filter(|e| status_of(e) == Status::Live && e.get_uuid() != target)
-        .filter(|e| references_of(e, ref_attrs).iter().any(|(_, t)| *t == target))
+        .filter(|e| {
+            references_of(e, ref_attrs)
+                .iter()
+                .any(|(a, t)| *t == target && a != "memberof" && a != "directmemberof")
+        })
         .map(|e| e.get_uuid())
         .collect()
 }
@@ -282,11 +307,16 @@ pub fn stored_domain_name(entries: &[E]) -> Option<String> {
         .and_then(|e| dump::proto_values(e, Attribute::DomainName).into_iter().next())
 }
 
-/// Discrepancies of the spn invariant over live accounts and groups.
-pub fn spn_violations(entries: &[E]) -> Vec<String> {
+pub const SIG_SPN: &str = "live account or group whose spn is not name@domain";
+/// Known finding: at the current domain level `name` is optional on groups; a group without a name
+/// keeps whatever spn value a caller writes (generate_spn returns the existing value verbatim).
+pub const SIG_SPN_NAMELESS: &str = "nameless group keeps a caller-chosen spn outside the current domain";
+
+/// Discrepancies of the spn invariant over live accounts and groups: (signature, detail).
+pub fn spn_violations(entries: &[E]) -> Vec<(&'static str, String)> {
     let mut out = Vec::new();
     let Some(domain) = stored_domain_name(entries) else {
-        return vec!["domain_info entry has no domain_name".into()];
+        return vec![(SIG_SPN, "domain_info entry has no domain_name".into())];
     };
     for e in entries.iter().filter(|e| status_of(e) == Status::Live) {
         if !(e.has_class(&EntryClass::Account) || e.has_class(&EntryClass::Group)) {
@@ -294,13 +324,24 @@ pub fn spn_violations(entries: &[E]) -> Vec<String> {
         }
         let names = dump::proto_values(e, Attribute::Name);
         let spns = dump::proto_values(e, Attribute::Spn);
+        if names.is_empty() {
+            // The schema of the current domain level makes `name` optional on groups (spn-only
+            // entries). The property's formula needs a name; what remains checkable is that there
+            // is exactly one spn and that it lives in the current domain.
+            if spns.len() != 1 {
+                out.push((SIG_SPN, format!("{} (nameless): spn {:?}, expected exactly one value", e.get_uuid(), spns)));
+            } else if !spns[0].ends_with(&format!("@{domain}")) {
+                out.push((SIG_SPN_NAMELESS, format!("{} (nameless): spn {:?}, current domain {domain:?}", e.get_uuid(), spns)));
+            }
+            continue;
+        }
         if names.len() != 1 {
-            out.push(format!("{} has {} names", e.get_uuid(), names.len()));
+            out.push((SIG_SPN, format!("{} has {} names", e.get_uuid(), names.len())));
             continue;
         }
         let want = format!("{}@{}", names[0], domain);
         if spns.len() != 1 || spns[0] != want {
-            out.push(format!("{}: spn {:?}, expected [{want:?}]", e.get_uuid(), spns));
+            out.push((SIG_SPN, format!("{}: spn {:?}, expected [{want:?}]", e.get_uuid(), spns)));
         }
     }
     out
